@@ -275,9 +275,9 @@ func (s *Speller) Class(e *Expr) string {
 	hyphen := -1
 	// a member hyphen is written raw as the first member, or (drawn) escaped in place: "the
 	// same escapes as in string literals are available"
-	escapeHyphen := !s.Boot && s.u(3, "escapehyphen") == 0
+	// (a hyphen that is not the first character member is always escaped in place)
 	for i, c := range e.Chars {
-		if c == '-' && hyphen < 0 && !(escapeHyphen && i > 0) {
+		if c == '-' && hyphen < 0 && (i == 0 || s.Boot) {
 			hyphen = i
 			continue
 		}
